@@ -66,6 +66,16 @@ CHECKS = {
          "6750 (quick) / 48000 (thorough) single-unit trees over every optional member and GeneralName kind, plus 21 variants at every position of every 1..3 x 1..3 shape.",
          "Empty naming authority / empty item or OID lists have no agreed encoding and are excluded.",
          "DESIGN.md §3 C16"),
+ "C19": ("exploration",
+         "exhaustive enumeration of manipulation-key subsets and value products on deterministic (RSA, fixed serial and dates) certificates; field-by-field reference comparison plus byte-level differential against the same configuration without the block",
+         "All 64 key subsets, every key with every value, value products for pairs (quick) / all subsets of size <=3 (thorough), for roots and subordinates and 3 extension sets: the named fields hold exactly the given values, every other TBS field is byte-identical to the unmanipulated certificate, outer-only manipulations leave TBS and signature untouched, hashed key ids follow manipulated bits, and the signature verifies over the actual bytes with the real issuer key.",
+         "Value alphabets are small (5 versions, 4 OIDs, 4 byte strings); 'arbitrary' values are represented by their boundary shapes.",
+         "DESIGN.md §3 C19"),
+ "C11": ("model_checking",
+         "full product of abstract entity states x strategies on the real planner over a synthetic db.Database, against a decision table transcribed from the statement; the same states realised as files on FsDb+simfs with BulkUpdate order/chain checks; CLI flag product",
+         "Pair product: every per-entity state (artifact kind x hash state x expiry x config age) for issuer and subject x 3 time relations x 32 strategies (8.8e5 plans in thorough; 16 issuer representatives in quick); every forest on <=3/4 entities with a 3..6-letter alphabet x all artifact-time orders x 32 strategies x return-order permutations; 225 x up to 384 file-level worlds with write-order and chain checks; 6 worlds x 32 flag sets on the binary.",
+         "Don't-care cells: timestamp comparisons for entities without any artifact file. Expiry uses dates decades from now, not a moving clock.",
+         "DESIGN.md §3 C11"),
 }
 NOT_YET = "check not built yet in this round (planned, see DESIGN.md §3)"
 
